@@ -61,7 +61,7 @@ type Net struct {
 	K   *Kernel
 	Obs Observer
 
-	mu        sync.Mutex
+	mu        sync.RWMutex
 	udp       map[string]*UDPSock
 	tcpl      map[string]*TCPListener
 	names     map[string]string // "ip:port" -> actor name; "ip" -> actor name
@@ -125,7 +125,7 @@ func (n *Net) register(info *SockInfo) {
 
 // ioFault consults the plan for an injected socket error. Counted per (sock role, op).
 func (n *Net) ioFault(role, op string, addr ...string) (string, bool) {
-	if len(n.K.Plan.IOFaults) == 0 {
+	if n.K.Free || len(n.K.Plan.IOFaults) == 0 {
 		return "", false
 	}
 	n.mu.Lock()
@@ -209,6 +209,13 @@ func (n *Net) ListenUDP(role, owner string, ip net.IP, port int) (*UDPSock, erro
 }
 
 func (s *UDPSock) LocalAddr() net.Addr { return s.laddr }
+
+// SetHandler installs (or removes) the scripted delivery callback.
+func (s *UDPSock) SetHandler(h func(d *Dgram)) {
+	s.mu.Lock()
+	s.Handler = h
+	s.mu.Unlock()
+}
 
 func (s *UDPSock) ReadFrom(p []byte) (int, net.Addr, error) {
 	if s.N.Obs != nil {
@@ -332,6 +339,16 @@ var Classify func(b []byte) string = func(b []byte) string { return "raw" }
 // SendUDP puts a datagram on the wire; the plan decides its fate.
 func (n *Net) SendUDP(from, to *net.UDPAddr, payload []byte) {
 	k := n.K
+	if k.Free {
+		// no names, counters or fault directives: nothing shared between senders
+		base := n.LatSP
+		if n.ServerIPs[from.IP.String()] != n.ServerIPs[to.IP.String()] {
+			base = n.LatCS
+		}
+		d := &Dgram{From: &net.UDPAddr{IP: from.IP, Port: from.Port}, To: &net.UDPAddr{IP: to.IP, Port: to.Port}, Payload: append([]byte(nil), payload...)}
+		time.AfterFunc(time.Duration(base+int64(from.Port%97)*1000), func() { n.deliverUDP(d) })
+		return
+	}
 	n.mu.Lock()
 	flow := n.nameLocked(from.IP, from.Port) + ">" + n.nameLocked(to.IP, to.Port)
 	what := Classify(payload)
@@ -383,20 +400,25 @@ func (n *Net) SendUDP(from, to *net.UDPAddr, payload []byte) {
 }
 
 func (n *Net) deliverUDP(d *Dgram) {
-	n.mu.Lock()
+	n.mu.RLock()
 	s := n.udp[akey(d.To.IP, d.To.Port)]
-	if s == nil {
+	n.mu.RUnlock()
+	if s == nil && !n.K.Free {
+		n.mu.Lock()
 		n.Unbound++
+		n.mu.Unlock()
 	}
-	n.mu.Unlock()
 	if s == nil {
 		return
 	}
-	if s.Handler != nil {
+	s.mu.Lock()
+	h := s.Handler
+	s.mu.Unlock()
+	if h != nil {
 		if n.Obs != nil {
 			n.Obs.UDPDeliverScripted(s, d)
 		}
-		s.Handler(d)
+		h(d)
 		return
 	}
 	s.mu.Lock()
